@@ -11,12 +11,15 @@
 package main
 
 import (
+	"bytes"
 	"context"
 	"encoding/json"
 	"fmt"
 	"os"
 	"os/exec"
+	"sort"
 	"sync"
+	"syscall"
 	"time"
 
 	proto "github.com/kubewharf/kubebrain-client/api/v2rpc"
@@ -31,7 +34,7 @@ import (
 const initRev = 1000
 
 type Req struct {
-	Kind  string // create | update | delete | get | list | compact
+	Kind  string // create | update | delete | get | list | compact | count | stream
 	Key   []byte
 	Val   []byte
 	End   []byte
@@ -45,7 +48,8 @@ type KVR struct {
 }
 
 type Resp struct {
-	Kind   string // err | panic | create | update | delete | get | list | compact
+	Kind   string // err | panic | hang | create | update | delete | get | list | compact | count | stream
+	Count  uint64
 	Ok     bool
 	Hdr    uint64
 	HasKv  bool
@@ -75,8 +79,9 @@ type Run struct {
 }
 
 type History struct {
-	Name string
-	Reqs []Req
+	Name    string
+	Reqs    []Req
+	Engines []string // nil = all of `engines`
 }
 
 type Result struct {
@@ -87,7 +92,11 @@ type Result struct {
 const (
 	engTiKVSplitKey = "tikv-split-key"
 	engTiKVSplitVer = "tikv-split-version"
+	engTiKVMany     = "tikv-many-regions" // one region per key of manyKeys: more regions than one PD page
+	manyKeys        = 150
 )
+
+func manyKey(i int) []byte { return []byte(fmt.Sprintf("/registry/k%04d", i)) }
 
 var engines = []string{lib.EngMem, lib.EngBadger, lib.EngTiKV, lib.EngWrapMem, lib.EngWrapBadger, engTiKVSplitKey, engTiKVSplitVer}
 
@@ -98,6 +107,12 @@ func openEngine(eng, scratch string) (storage.KvStorage, func(), error) {
 		return lib.NewTiKVSplit(cd.EncodeObjectKey([]byte("/registry/b"), 0))
 	case engTiKVSplitVer:
 		return lib.NewTiKVSplit(cd.EncodeObjectKey([]byte("/registry/a"), initRev+3))
+	case engTiKVMany:
+		var splits [][]byte
+		for i := 0; i < manyKeys; i++ {
+			splits = append(splits, cd.EncodeRevisionKey(manyKey(i)))
+		}
+		return lib.NewTiKVSplit(splits...)
 	}
 	return lib.NewEngine(eng, scratch)
 }
@@ -158,6 +173,36 @@ func call(b backend.Backend, r Req) (res Resp) {
 			res.Kvs = append(res.Kvs, KVR{kv.Key, kv.Value, kv.Revision})
 		}
 		return res
+	case "count":
+		resp, err := b.Count(ctx, &proto.CountRequest{Key: r.Key, End: r.End})
+		if err != nil {
+			return Resp{Kind: "err", ErrStr: err.Error()}
+		}
+		return Resp{Kind: "count", Hdr: resp.Header.GetRevision(), Count: resp.Count}
+	case "stream":
+		cd := coder.NewNormalCoder()
+		ch, err := b.ListByStream(ctx, cd.EncodeObjectKey(r.Key, 0), cd.EncodeObjectKey(r.End, 0), r.Rev)
+		if err != nil {
+			return Resp{Kind: "err", ErrStr: err.Error()}
+		}
+		res = Resp{Kind: "stream"}
+		for m := range ch {
+			if m.Err != "" {
+				res.Err, res.ErrStr = true, m.Err
+			}
+			for _, kv := range m.GetRangeResponse().GetKvs() {
+				res.Kvs = append(res.Kvs, KVR{kv.Key, kv.Value, kv.Revision})
+			}
+		}
+		// the partitions' workers stream concurrently: the order of the batches is a schedule artefact, the
+		// multiset of records is not (a gap or a duplicate survives the sorting)
+		sort.SliceStable(res.Kvs, func(i, j int) bool {
+			if c := bytes.Compare(res.Kvs[i].K, res.Kvs[j].K); c != 0 {
+				return c < 0
+			}
+			return res.Kvs[i].R < res.Kvs[j].R
+		})
+		return res
 	case "compact":
 		resp, err := b.Compact(ctx, r.Rev)
 		res = Resp{Kind: "compact", Err: err != nil}
@@ -172,6 +217,20 @@ func call(b backend.Backend, r Req) (res Resp) {
 	return Resp{Kind: "err", ErrStr: "unknown request"}
 }
 
+// requestTimeout: a request that has not answered by then is recorded as `hang` (generous for a loaded machine)
+const requestTimeout = 10 * time.Second
+
+func callWatched(b backend.Backend, r Req) Resp {
+	done := make(chan Resp, 1)
+	go func() { done <- call(b, r) }()
+	select {
+	case res := <-done:
+		return res
+	case <-time.After(requestTimeout):
+		return Resp{Kind: "hang", ErrStr: fmt.Sprintf("no answer within %s", requestTimeout)}
+	}
+}
+
 func isWrite(k string) bool { return k == "create" || k == "update" || k == "delete" }
 
 func runHistory(h History, eng, scratch string) Run {
@@ -181,8 +240,15 @@ func runHistory(h History, eng, scratch string) Run {
 		run.Fail = "open: " + err.Error()
 		return run
 	}
-	defer closer()
-	b := backend.NewBackend(kv, backend.Config{Prefix: "/registry", Identity: "verif"}, &lib.NopMetrics{})
+	hung := false
+	defer func() {
+		if hung {
+			go closer() // a wedged engine may never close
+		} else {
+			closer()
+		}
+	}()
+	b := backend.NewBackend(kv, backend.Config{Prefix: "/registry", Identity: "verif", EnableEtcdCompatibility: true}, &lib.NopMetrics{})
 	b.SetCurrentRevision(initRev)
 	wctx, cancel := context.WithCancel(context.Background())
 	defer cancel()
@@ -209,8 +275,12 @@ func runHistory(h History, eng, scratch string) Run {
 	dealt := uint64(initRev)
 	nvalid := 0
 	for i, r := range h.Reqs {
-		res := call(b, r)
+		res := callWatched(b, r)
 		run.Resps = append(run.Resps, res)
+		if res.Kind == "hang" {
+			hung = true // the backend is wedged: no further request, no dump (memkv would block on its mutex)
+			break
+		}
 		if res.Kind == "panic" {
 			break
 		}
@@ -231,6 +301,12 @@ func runHistory(h History, eng, scratch string) Run {
 	mu.Lock()
 	run.Events = append([]Event{}, events...)
 	mu.Unlock()
+	if hung {
+		mu.Lock()
+		run.Events = append([]Event{}, events...)
+		mu.Unlock()
+		return run
+	}
 	d, err := lib.Dump(kv)
 	if err != nil {
 		run.Fail = "dump: " + err.Error()
@@ -272,8 +348,12 @@ func child(scratch string) {
 	out := make([]Result, len(hs))
 	for i, h := range hs {
 		var wg sync.WaitGroup
-		runs := make([]Run, len(engines))
-		for j, e := range engines {
+		engs := h.Engines
+		if engs == nil {
+			engs = engines
+		}
+		runs := make([]Run, len(engs))
+		for j, e := range engs {
 			wg.Add(1)
 			go func(j int, e string) {
 				defer wg.Done()
@@ -409,7 +489,7 @@ func genHistory(r *lib.Rand, withEmpty bool) History {
 					q.Rev = h[r.Intn(len(h))]
 				}
 			}
-		case c < 92:
+		case c < 90:
 			a, b := r.PickB(bounds), r.PickB(bounds)
 			if r.Chance(2, 3) {
 				a, b = []byte("/registry/"), []byte("/registry0")
@@ -426,6 +506,22 @@ func genHistory(r *lib.Rand, withEmpty bool) History {
 				q.Rev = g.rev - uint64(r.Intn(int(g.rev-initRev)+1))
 			case 1:
 				q.Rev = g.rev + uint64(r.Intn(3))
+			}
+		case c < 94:
+			a, b := []byte("/registry/"), []byte("/registry0")
+			if r.Chance(1, 3) {
+				a, b = r.PickB(bounds), r.PickB(bounds)
+				if string(a) >= string(b) {
+					a, b = []byte("/registry/a"), []byte("/registry/c")
+				}
+			}
+			if r.Bool() {
+				q = Req{Kind: "count", Key: a, End: b}
+			} else {
+				q = Req{Kind: "stream", Key: a, End: b}
+				if r.Chance(1, 3) {
+					q.Rev = g.rev - uint64(r.Intn(int(g.rev-initRev)+1))
+				}
 			}
 		default:
 			q = Req{Kind: "compact"}
@@ -476,6 +572,31 @@ func versionsHistory() History {
 	return History{Name: "fixed:versions-across-region-border", Reqs: reqs}
 }
 
+// more regions than one page of PD's region scan (128): every partition-driven scan (unlimited List, Count,
+// ListByStream, Compact) must still cover the whole range, like the single-worker limited List does
+func manyRegionsHistory() History {
+	lo, hi := B("/registry/"), B("/registry0")
+	var reqs []Req
+	for i := 0; i < manyKeys; i++ {
+		reqs = append(reqs, Req{Kind: "create", Key: manyKey(i), Val: []byte(fmt.Sprintf("v%04d", i))})
+	}
+	reqs = append(reqs,
+		Req{Kind: "delete", Key: manyKey(140)},
+		Req{Kind: "update", Key: manyKey(145), Val: B("w"), Rev: initRev + 146},
+		Req{Kind: "list", Key: lo, End: hi},
+		Req{Kind: "list", Key: manyKey(10), End: manyKey(145)},
+		Req{Kind: "list", Key: manyKey(100), End: manyKey(148)},
+		Req{Kind: "list", Key: lo, End: hi, Limit: 140},
+		Req{Kind: "count", Key: lo, End: hi},
+		Req{Kind: "stream", Key: lo, End: hi},
+		Req{Kind: "stream", Key: manyKey(5), End: manyKey(149), Rev: initRev + 149},
+		Req{Kind: "get", Key: manyKey(manyKeys - 1)},
+		Req{Kind: "compact"},
+		Req{Kind: "list", Key: lo, End: hi},
+		Req{Kind: "count", Key: lo, End: hi})
+	return History{Name: "fixed:many-regions", Reqs: reqs, Engines: []string{lib.EngMem, lib.EngBadger, lib.EngTiKV, engTiKVMany}}
+}
+
 func corpus() []History {
 	a, b := B("/registry/a"), B("/registry/b")
 	lo, hi := B("/registry/"), B("/registry0")
@@ -520,6 +641,13 @@ func corpus() []History {
 			{Kind: "delete", Key: a, Rev: initRev + 1}, {Kind: "get", Key: a}, {Kind: "list", Key: lo, End: hi},
 			{Kind: "create", Key: a, Val: B("v4")}, {Kind: "get", Key: a}}},
 		versionsHistory(),
+		{Name: "fixed:stale-compact-request", Reqs: []Req{ // a Compact older than the recorded one must be answered on every engine
+			{Kind: "create", Key: a, Val: B("v1")}, {Kind: "create", Key: b, Val: B("v2")},
+			{Kind: "update", Key: a, Val: B("v1b"), Rev: initRev + 1},
+			{Kind: "compact", Rev: initRev + 3}, {Kind: "compact", Rev: initRev + 2},
+			{Kind: "get", Key: a}, {Kind: "list", Key: lo, End: hi}, {Kind: "create", Key: B("/registry/c"), Val: B("v3")},
+			{Kind: "compact", Rev: initRev + 1}, {Kind: "count", Key: lo, End: hi}, {Kind: "stream", Key: lo, End: hi}}},
+		manyRegionsHistory(),
 		{Name: "fixed:empty-value", Reqs: []Req{
 			{Kind: "create", Key: a, Val: B("")}, {Kind: "get", Key: a}, {Kind: "list", Key: lo, End: hi},
 			{Kind: "update", Key: a, Val: B("v2"), Rev: initRev + 1}, {Kind: "get", Key: a}}},
@@ -540,6 +668,10 @@ func coqReq(r Req) string {
 		return lib.App("QGet", lib.Bytes(r.Key), lib.N(r.Rev))
 	case "list":
 		return lib.App("QList", lib.Bytes(r.Key), lib.Bytes(r.End), lib.N(r.Rev), lib.N(uint64(r.Limit)))
+	case "count":
+		return lib.App("QCount", lib.Bytes(r.Key), lib.Bytes(r.End))
+	case "stream":
+		return lib.App("QStream", lib.Bytes(r.Key), lib.Bytes(r.End), lib.N(r.Rev))
 	}
 	return lib.App("QCompact", lib.N(r.Rev))
 }
@@ -551,12 +683,26 @@ func coqKv(has bool, v []byte, rev uint64) string {
 	return lib.Some(lib.Pair(lib.Bytes(v), lib.N(rev)))
 }
 
+func coqKvs(kvs []KVR) string {
+	xs := make([]string, len(kvs))
+	for i, e := range kvs {
+		xs[i] = "(" + lib.Bytes(e.K) + ", " + lib.Bytes(e.V) + ", " + lib.N(e.R) + ")"
+	}
+	return lib.List(xs)
+}
+
 func coqResp(r Resp) string {
 	switch r.Kind {
 	case "err":
 		return "PErr"
 	case "panic":
 		return "PPanic"
+	case "hang":
+		return "PHang"
+	case "count":
+		return lib.App("PCount", lib.N(r.Hdr), lib.N(r.Count))
+	case "stream":
+		return lib.App("PStream", coqKvs(r.Kvs), lib.Bool(r.Err))
 	case "create":
 		return lib.App("PCreate", lib.Bool(r.Ok), lib.N(r.Hdr))
 	case "update":
@@ -577,7 +723,7 @@ func coqResp(r Resp) string {
 
 // the region layout is not part of the adapter model: all three TiKV mocks are checked against the same model
 var coqEng = map[string]string{lib.EngMem: "EMem", lib.EngBadger: "EBadger", lib.EngTiKV: "ETiKV",
-	lib.EngWrapMem: "EWrapMem", lib.EngWrapBadger: "EWrapBadger", engTiKVSplitKey: "ETiKV", engTiKVSplitVer: "ETiKV"}
+	lib.EngWrapMem: "EWrapMem", lib.EngWrapBadger: "EWrapBadger", engTiKVSplitKey: "ETiKV", engTiKVSplitVer: "ETiKV", engTiKVMany: "ETiKV"}
 
 func coqRun(r Run) string {
 	rs := make([]string, len(r.Resps))
@@ -607,6 +753,10 @@ func jsonReq(r Req) string {
 		return fmt.Sprintf("get(%q,rev=%d)", r.Key, r.Rev)
 	case "list":
 		return fmt.Sprintf("list(%q,%q,rev=%d,limit=%d)", r.Key, r.End, r.Rev, r.Limit)
+	case "count":
+		return fmt.Sprintf("count(%q,%q)", r.Key, r.End)
+	case "stream":
+		return fmt.Sprintf("stream(%q,%q,rev=%d)", r.Key, r.End, r.Rev)
 	}
 	return fmt.Sprintf("compact(%d)", r.Rev)
 }
@@ -617,8 +767,18 @@ func jsonResp(r Resp) string {
 		kv = fmt.Sprintf("%q@%d", r.KvVal, r.KvRev)
 	}
 	switch r.Kind {
-	case "err", "panic":
+	case "err", "panic", "hang":
 		return r.Kind + ":" + r.ErrStr
+	case "count":
+		return fmt.Sprintf("hdr=%d count=%d", r.Hdr, r.Count)
+	case "stream":
+		s := fmt.Sprintf("%d kvs err=%v", len(r.Kvs), r.Err)
+		for i, e := range r.Kvs {
+			if i < 3 || i >= len(r.Kvs)-2 {
+				s += fmt.Sprintf(" %q=%q@%d", e.K, e.V, e.R)
+			}
+		}
+		return s
 	case "create":
 		return fmt.Sprintf("ok=%v hdr=%d", r.Ok, r.Hdr)
 	case "update", "delete":
@@ -626,9 +786,11 @@ func jsonResp(r Resp) string {
 	case "get":
 		return fmt.Sprintf("hdr=%d kv=%s", r.Hdr, kv)
 	case "list":
-		s := fmt.Sprintf("hdr=%d more=%v", r.Hdr, r.More)
-		for _, e := range r.Kvs {
-			s += fmt.Sprintf(" %q=%q@%d", e.K, e.V, e.R)
+		s := fmt.Sprintf("hdr=%d more=%v (%d kvs)", r.Hdr, r.More, len(r.Kvs))
+		for i, e := range r.Kvs {
+			if len(r.Kvs) <= 8 || i < 3 || i >= len(r.Kvs)-2 {
+				s += fmt.Sprintf(" %q=%q@%d", e.K, e.V, e.R)
+			}
 		}
 		return s
 	}
@@ -639,7 +801,11 @@ func jsonResp(r Resp) string {
 
 func runChunk(hs []History, scratch string) ([]Result, error) {
 	in, _ := json.Marshal(hs)
-	cmd := exec.Command(os.Args[0])
+	// a chunk that does not finish (every request of every history wedged) is killed, never left behind
+	cctx, cancel := context.WithTimeout(context.Background(), 10*time.Minute)
+	defer cancel()
+	cmd := exec.CommandContext(cctx, os.Args[0])
+	cmd.SysProcAttr = &syscall.SysProcAttr{Pdeathsig: syscall.SIGKILL} // and it dies with the driver
 	cmd.Env = append(os.Environ(), "C12_CHILD="+scratch)
 	stdin, _ := cmd.StdinPipe()
 	go func() { stdin.Write(in); stdin.Close() }()
